@@ -13,6 +13,18 @@ TB_VALUE = TB_COMMON + [
 ]
 
 PROPS = {
+    "C19": {
+        "n_quick": 260, "n_thorough": 8000,
+        "check_fn": "k19_check",
+        "rule": "generated values (nested to depth 3, null / refined unknown / marked members at every depth, sets, capsules): full Walk listing, every reported path applied back, "
+                "valid and mutated (invalid: missing attribute, out-of-range / wrong-kind / unknown keys) paths, identity Transform, replacement of one member, path-indexed mark "
+                "removal and re-application, UnknownAsNull, path equality / prefix; PathSet histories of 4-17 operations over a 16-path pool with equal numbers at different "
+                "precisions; non-trivial = values with at least one nested member / histories",
+        "trusted_base": TB_VALUE + ["PathSet.List order follows Go's crc64 buckets and is compared as a set; the model's path hash is another function of the same path skeleton"],
+        "assumptions": ["callbacks passed to Transform in the cases are identity / single replacement"],
+        "partial": ["theorems: path-set laws (coherence for all paths; mathematical-set behaviour for known keys), path composition, walk root/leaf behaviour, attribute steps; 'each member exactly once', "
+                    "'path applied to the root returns the visited member', transform identity/replacement and the mark round trip are oracle-checked on every generated value and compared with the model, not yet theorems"],
+    },
     "C10": {
         "n_quick": 1200, "n_thorough": 30000,
         "check_fn": "k10_check",
